@@ -6,5 +6,5 @@ cd /repo && git diff --quiet || { echo "/repo is dirty"; exit 3; }
 git -C /repo apply "$P" || { echo "patch does not apply"; exit 3; }
 cd /verif && SIM_BUDGET_S=$B ./simcheck check $PROP --tier $T 2>&1 | cut -c1-500 | tail -6
 rc=${PIPESTATUS[0]}
-git -C /repo checkout -- . ; git -C /repo status --short
+git -C /repo checkout -- . ; git -C /repo clean -fdq ; git -C /repo status --short
 echo "check-exit=$rc"
